@@ -7,7 +7,14 @@ func init() {
 		Harnesses: []*HarnessSpec{
 			{Name: "H_C19_limit", Tier: "quick", What: "LimitResults / sanitizeK: n<=5 entries, k any int", Covers: []string{"k-inside", "k-outside"}},
 			{Name: "H_C19_autocut", Tier: "quick", What: "Autocut / AutocutResults: n<=5 scores (any float32 incl. NaN/Inf), cutoff any int", Covers: []string{"disabled", "enabled"}},
+			{Name: "H_C19_agg_vector", Tier: "quick", What: "3 vector aggregations: <=4 entries over ids {1,2,3} in every duplicate pattern, non-NaN float32 scores", Covers: []string{"n>=2"}},
+			{Name: "H_C19_agg_text", Tier: "quick", What: "3 text aggregations, same shape", Covers: []string{"n>=2"}},
+			{Name: "H_C19_agg_perm", Tier: "quick", What: "order independence of the id->score map: max (<=3 occurrences), sum/mean (2 occurrences)", Covers: []string{"perm"}},
+			{Name: "H_C19_agg_nan", Tier: "quick", What: "never panics / each id once with NaN and Inf scores (3 entries)", Covers: []string{"nan-run"}},
+			{Name: "H_C19_fusion", Tier: "quick", What: "4 fusion kinds over every membership pattern of 3 ids in the two maps; weights, K>0 symbolic float64", Covers: []string{"both-nonempty", "one-empty"}},
+			{Name: "H_C19_merge", Tier: "quick", What: "mergeResults / sortResultsByScore: <=4 entries over ids {1,2,3}", Covers: []string{"empty", "nonempty"}},
 		},
+		Lemmas: []string{"L_add0_comm_f32"},
 		Bounds:  []string{"lists of 0..5 entries", "scores: all float32 values incl. NaN, +-Inf, -0", "k, cutoff: all int values"},
 		Outside: []string{"lists longer than the bound ('a few hundred entries')"},
 		Assumptions: []string{
